@@ -392,6 +392,18 @@ fn group_key(recovery: &Recovery) -> String {
     if let Some(qs) = recovery.st.get("qs") {
         key.push_str(&qs.to_string());
     }
+    // what C06 judges after a recovery: the file set, the writer's file, disk usage and the file
+    // recovery resumed the writer in (not the byte offset: it differs at every crash point)
+    if let Some(files) = recovery.st.get("files") {
+        let resumed: Vec<String> = recovery
+            .io
+            .iter()
+            .filter(|event| event["e"] == "SK")
+            .take(1)
+            .map(|event| event["f"].to_string())
+            .collect();
+        key.push_str(&format!("|f{}w{}d{}r{:?}", files, recovery.st["w"][0], recovery.st["disk"], resumed));
+    }
     for line in &recovery.cont {
         if line["ev"] == "damage" {
             key.push_str(&format!("dmg:{}", line["out"]));
